@@ -1,6 +1,10 @@
 mod clvmgen;
 mod common;
 mod engines;
+mod gen;
+mod progs;
+mod refi;
+mod shrink;
 mod repo;
 
 use common::*;
@@ -55,6 +59,7 @@ fn main() {
         }
     }
     install_panic_hook();
+    watchdog_start(std::env::var("VH_CASE_LIMIT_S").ok().and_then(|x| x.parse().ok()).unwrap_or(90), std::env::var("VH_MEM_MB").ok().and_then(|x| x.parse().ok()).unwrap_or(3000));
     let stack_mb = engines::stack_mb(&engine);
     let code = on_big_stack(stack_mb, move || engines::dispatch(&engine, &cfg));
     std::process::exit(code);
